@@ -31,6 +31,8 @@ def gen_child(rng, style):
     for key in ("cmw", "cst", "rmh", "rst"):
         if rng.random() < (0.3 if style != "plain" else 0.15):
             a[key] = rng.choice([0, 1, 2, 20, 30] + ([2 ** 32 + 7, 2 ** 31] if style == "wild" else []))
+    if rng.random() < 0.2:
+        a["_align"] = rng.choice(["Qt.AlignRight", "Qt.AlignTop", "Qt.AlignHCenter", "Qt.AlignLeft | Qt.AlignBottom"])
     # the kind of the child does not matter to the flow rule: spacers and nested layouts occupy a cell / a position like widgets do
     r = rng.random()
     if r < 0.2:
@@ -83,7 +85,7 @@ def to_qml(lay):
         # "mixed": the attached settings of one child written through TWO spellings of the attaching type (the concrete layout class for the row-wise ones, QLayout for
         # the others) -- refused today; if ever accepted, both spellings mean the one attached object and every setting counts
         pre = lambda k: cls if (lay.get("mixed") and k in ("row", "rowspan", "rmh", "rst")) else "QLayout"
-        body = "; ".join("%s.%s: %d" % (pre(k), q, a[k]) for k, q in FIELDS if k in a)
+        body = "; ".join(["%s.%s: %d" % (pre(k), q, a[k]) for k, q in FIELDS if k in a] + (["QLayout.alignment: %s" % a["_align"]] if "_align" in a else []))
         lines.append("    %s { %s }" % (a.get("_cls", "QLabel"), body))
     lines += ["  }", "}"]
     return "\n".join(lines)
@@ -204,6 +206,15 @@ def run(ctx):
         if obs is None:
             ctx.violation("no .ui produced for a layout document", {"case": l, "qml": docs[i], "impl_output": r})
             continue
+        # explicit alignment is copied to the item of the child that carries it (widget, spacer or nested layout alike) and to no other
+        if not any(d["kind"] == "error" for d in r.get("diags", [])):
+            its = qml.parse_ui(r["ui"]).find("widget").find("layout").findall("item")
+            want = [a.get("_align") for a in l["kids"]]
+            got = [it.get("alignment") for it in its]
+            if len(its) == len(want) and [None if w is None else w.replace("Qt.", "Qt::").replace(" ", "") for w in want] != got:
+                ctx.violation("the alignments of the items are %r; the children carry %r" % (got, want), {"case": l, "qml": docs[i], "impl_output": r["ui"],
+                              "theorem_or_correspondence": "S: explicit alignment is copied to the item"})
+                continue
         terms.append((coq_input(l, sat=True), coq_expected(obs)))
         sterms.append((coq_input(l), coq_expected(obs, with_diags=False)))
         idx.append(i)
